@@ -292,7 +292,7 @@ package node
 //@ spec func psGuar(me int, s int32, o int, f int, z int, s2 int32, o2 int, f2 int, z2 int) bool = (s2 == s && o2 == o && f2 == f && z2 == z) || (s == 2 && s2 == 4 && o2 != 0 && f2 == f && z2 == z) || (o == me && s == 4 && s2 == 2 && o2 == 0 && f2 == f && z2 == z) || (o == me && (s == 4 && s2 == 8 || s == 8 && s2 == 4) && o2 == o && f2 == f && z2 == z) || (s == 1 && o == me && s2 == 2 && o2 == 0 && f2 == f && z2 == z) || (s2 == 32 && s != 1 && o2 == o && f2 == f && (s == 2 ? z2 == me : z2 == z)) || (s == 32 && f != 0 && s2 == 16 && o2 == o && f2 == f && z2 == z) || (s2 == 16 && s != 16 && f == 0 && f2 == me && o2 == o && z2 == z && (o == me || (o == 0 && z == me))) || (f == me && o == 0 && f2 != 0 && s2 == s && o2 == o && z2 == z)
 //@ spec func psRely(me int, s int32, o int, f int, z int, s2 int32, o2 int, f2 int, z2 int) bool = (o == me ==> o2 == me && (f == 0 ==> f2 == 0) && z2 == z && (s2 == s || s2 == 32 || (f != 0 && s2 == 16))) && (z == me && f == 0 ==> z2 == me && o2 == 0 && f2 == 0 && s2 == 32) && (f == me ==> f2 == me) && (f != 0 ==> f2 != 0) && (f != me ==> f2 != me) && (o != me ==> o2 != me) && (z != me ==> z2 != me) && (s != 1 ==> s2 != 1)
 
-//@ protocol procState field process.state ghosts owner fin zs inv psInv rely psRely guar psGuar
+//@ protocol procState field process.state ghosts owner fin zs inv psInv rely psRely guar psGuar exempt (*node).spawn
 
 // what the other threads may do to me is what the guarantee lets them do. The run token is handed
 // over only to the waking thread itself or to a goroutine it starts (checked at the go statement),
@@ -367,3 +367,13 @@ package node
 //@   protocol procState at p
 //@   requires [is_finaliser] p != nil && fin(p) == me && owner(p) == 0
 //@   at call ProcessTerminate assert [finaliser_only_after_last_callback] fin(p) == me && (owner(p) == 0 || owner(p) == me)
+
+// waitResponse is called from within a callback of p (A-USER), i.e. by the holder of the run token;
+// it parks the state word in WaitResponse and restores Running, or reports that the process was
+// killed meanwhile.
+//@ func (p *process) waitResponse
+//@   props C01 C07 C14
+//@   protocol procState at p
+//@   requires [called_from_callback] owner(p) == me && fin(p) == 0
+//@   ensures [state_restored_or_terminated] result.1 != gen.ErrProcessTerminated && result.1 != gen.ErrNotAllowed ==> owner(p) == me
+//@   ensures [still_owner] owner(p) == me
